@@ -410,6 +410,49 @@ func (e *Engine) discharge(outDir string, timeoutMs int, allSolvers bool, worker
 	}
 	close(ch)
 	wg.Wait()
+	// Escalation: an obligation nobody decided within the budget (a loaded machine, an unlucky
+	// solver run) is tried again, a few at a time, with six times the budget before it may count as
+	// failed. "sat" answers are never retried: a counterexample is a counterexample.
+	var retry []job
+	for _, j := range jobs {
+		if j.ob.Class == "canary" || j.ob.Class == "infer" {
+			continue
+		}
+		if j.vc.Result == "unknown" || j.vc.Result == "timeout" || j.vc.Result == "error" {
+			retry = append(retry, j)
+		}
+	}
+	if len(retry) > 0 && len(retry) <= 64 {
+		ch2 := make(chan job)
+		var wg2 sync.WaitGroup
+		big := timeoutMs * 6
+		for w := 0; w < 4; w++ {
+			wg2.Add(1)
+			go func() {
+				defer wg2.Done()
+				for j := range ch2 {
+					hs := fnv.New32a()
+					hs.Write([]byte(j.ob.Name))
+					file := filepath.Join(outDir, safeName.ReplaceAllString(j.ob.Name, "_"))
+					if len(file) > 190 {
+						file = file[:190]
+					}
+					file = fmt.Sprintf("%s.%08x.%d.smt2", file, hs.Sum32(), j.i)
+					prev := j.vc.Result
+					j.vc.Result, j.vc.Candidate = "", false
+					e.solveOne(j.vc, file, solverList(big), big, allSolvers)
+					if j.vc.Result == "unsat" {
+						j.vc.Solver += "(retried after " + prev + ")"
+					}
+				}
+			}()
+		}
+		for _, j := range retry {
+			ch2 <- j
+		}
+		close(ch2)
+		wg2.Wait()
+	}
 }
 
 func (e *Engine) solveOne(vc *VC, file string, solvers []SolverCfg, timeoutMs int, all bool) {
